@@ -333,7 +333,9 @@ def shape_features(syms):
     while hi > lo and s[hi - 1] in ("sp", "gs", "us"):
         hi -= 1
     outer = s[:lo] + s[hi:]
-    return {"und_after_exp_sign": und_after_exp_sign,
+    # length of what the non-ASCII str path of the fast path keeps after stripping Unicode white space
+    return {"ws_core_len": (hi - lo) if not is_ascii_syms(s) else -1,
+            "und_after_exp_sign": und_after_exp_sign,
             "gs_in_outer_space": "gs" in outer,
             "non_ascii": not is_ascii_syms(s),
             "has_underscore": "_" in s,
@@ -469,6 +471,7 @@ def deviation_cause(op, a, b):
 _DRIVER = r'''
 import sys, json, math, importlib
 moddir, modname, infile, outfile, start, careful = sys.argv[1], sys.argv[2], sys.argv[3], sys.argv[4], int(sys.argv[5]), int(sys.argv[6])
+skip = set(json.loads(sys.argv[7]))
 sys.path.insert(0, moddir)
 mod = importlib.import_module(modname)
 if not mod.__file__.endswith(".so"):
@@ -495,10 +498,13 @@ for i in range(start, len(calls)):
     fn = calls[i][0]
     if careful or len(buf) >= 4000:
         out.write("".join(buf)); out.flush(); buf = []
-    try:
-        r = enc(getattr(mod, fn)(*[dec(x) for x in calls[i][1:]]))
-    except BaseException as e:
-        r = "E:" + type(e).__name__
+    if fn in skip:
+        r = "SKIP"
+    else:
+        try:
+            r = enc(getattr(mod, fn)(*[dec(x) for x in calls[i][1:]]))
+        except BaseException as e:
+            r = "E:" + type(e).__name__
     buf.append("%d %s\n" % (i, r))
 out.write("".join(buf)); out.flush(); out.close()
 print("@@" + json.dumps({"done": len(calls)}))
@@ -511,7 +517,8 @@ def farg(v):
 
 def run_table(build, table, tag, timeout=900):
     """table: list of [funcname, arg, ...] (args: str | int | ["f", hex] | ["b", hex] | ["ba", hex]).
-    -> list of observation texts ('f:<hex>', 'i:<n>', 'b:0/1', 'E:<Type>', 'CRASH:<sig>', 'TIMEOUT')."""
+    -> list of observation texts ('f:<hex>', 'i:<n>', 'b:0/1', 'E:<Type>', 'CRASH:<sig>', 'TIMEOUT'; 'SKIP' for the
+    remaining calls of a function after its 5th crash)."""
     moddir = os.path.dirname(build.so)
     inf = os.path.join(moddir, tag + "_in.json")
     outf = os.path.join(moddir, tag + "_out.txt")
@@ -520,9 +527,10 @@ def run_table(build, table, tag, timeout=900):
     if os.path.exists(outf):
         os.unlink(outf)
     obs = [None] * len(table)
-    start, careful, crashes = 0, 0, 0
+    start, careful, crashes = 0, 0, {}
     while start < len(table):
-        ch = core.run_child(_DRIVER, [moddir, build.name, inf, outf, str(start), str(careful)], timeout=timeout)
+        skip = [fn for fn, n in crashes.items() if n >= 5]
+        ch = core.run_child(_DRIVER, [moddir, build.name, inf, outf, str(start), str(careful), json.dumps(skip)], timeout=timeout)
         if os.path.exists(outf):
             with open(outf) as f:
                 for line in f:
@@ -544,8 +552,8 @@ def run_table(build, table, tag, timeout=900):
             continue
         obs[nxt] = "TIMEOUT" if ch.timed_out else ("CRASH:%d" % ch.signal if ch.crashed else "CRASH:exit%s" % ch.rc)
         core.CRASH_LOGS.append({"module": build.name, "call": table[nxt], "obs": obs[nxt], "stderr": ch.err[-3000:]})
-        crashes += 1
-        if crashes > 50:
+        crashes[table[nxt][0]] = crashes.get(table[nxt][0], 0) + 1
+        if sum(crashes.values()) > 200:
             core.die("too many crashes in run_table")
-        start = nxt + 1
+        start, careful = nxt + 1, 0
     return obs
